@@ -815,6 +815,7 @@ static void drive(const vh::Lines &ls, const char *who) {
 #include "mix_part.hpp"
 #include "err_part.hpp"
 #include "init_part.hpp"
+#include "alloc_part.hpp"
 
 static void body(const vh::Lines &ls) {
 	ev_reset_all();
@@ -837,6 +838,7 @@ static void body(const vh::Lines &ls) {
 	else if(ty == "mix") mix_case(ls);
 	else if(ty == "err") err_case(ls);
 	else if(ty == "init") init_case(ls);
+	else if(ty == "alloc") alloc_case(ls);
 	else printf("badtype\n");
 }
 
